@@ -3,6 +3,7 @@ package mon
 import (
 	"errors"
 	"fmt"
+	"math"
 	"sort"
 	"strings"
 	"time"
@@ -318,6 +319,22 @@ func c06Program(p *prog, steps int) {
 		op := r.Intn(100)
 		switch {
 		case op < 22: // Set with 1-3 pairs, duplicates allowed
+			if r.Chance(1, 10) {
+				// one key written several times in a row with values that look alike (0.0, -0.0, 0, "0", false): each write
+				// stores the value given, sign of zero and kind included
+				key := pickKey()
+				looks := []model.Val{model.Float(0), model.Float(math.Copysign(0, -1)), model.Float(0), model.Int(0), model.Float(math.Copysign(0, -1)), model.Str("0"), model.Bool(false), model.Nil(), model.Float(0)}
+				from := r.Intn(len(looks) - 2)
+				for _, v := range looks[from : from+r.Range(2, 3)] {
+					v := v
+					p.step("Set", fmt.Sprintf("%s.Set(%q, %s) [look-alike values in a row, sign bit %v]", o.Name(), key, v, v.K == spec.Float && math.Signbit(v.F)), false, func() {
+						o.M[key] = v
+						real.Set(key, h.Arg(v))
+					})
+				}
+				p.c.Count("look_alike_writes")
+				continue
+			}
 			k := r.Range(1, 3)
 			keys := make([]string, k)
 			vals := make([]model.Val, k)
@@ -443,12 +460,14 @@ func c06Program(p *prog, steps int) {
 			for i := range keys {
 				keys[i] = pickKey()
 			}
+			given := append([]string{}, keys...)
 			p.step("Unset", fmt.Sprintf("%s.Unset(%q)", o.Name(), keys), false, func() {
 				for _, key := range keys {
 					delete(o.M, key)
 				}
 				real.Unset(keys...)
 			})
+			p.expect(p.failed || fmt.Sprint(keys) == fmt.Sprint(given), "argument-slice-modified:Unset", fmt.Sprintf("the caller's slice %q as it was", given), fmt.Sprintf("%q", keys))
 		case op < 40:
 			p.step("Clear", o.Name()+".Clear()", false, func() {
 				o.M = map[string]model.Val{}
@@ -484,6 +503,7 @@ func c06Program(p *prog, steps int) {
 				}
 			}
 			res := h.NewObj(nil)
+			given := append([]string{}, keys...)
 			p.step("Pluck", fmt.Sprintf("%s = %s.Pluck(%q)", res.Name(), o.Name(), keys), missing, func() {
 				var ret at.Object
 				if len(keys) == 0 && r.Bool() {
@@ -493,6 +513,7 @@ func c06Program(p *prog, steps int) {
 				}
 				p.adoptResult(res, ret, expect, "Pluck")
 			})
+			p.expect(p.failed || fmt.Sprint(keys) == fmt.Sprint(given), "argument-slice-modified:Pluck", fmt.Sprintf("the caller's slice %q as it was", given), fmt.Sprintf("%q", keys))
 		case op < 60:
 			c06NewObject(p)
 		case op < 66: // mutate a nested list through its alias
